@@ -17,6 +17,9 @@ checks = {
  'C06': dict(cat='other', text="Sufficient condition decided per run from the typed AST of the working tree: in a sequential Go program the only ways to lose functional dependence on the inputs are the syntactic nondeterminism sources (range over a map, time.Now, rand, pointer formatting, goroutines) and mutable package state. Every such source reachable from the entry points is an obligation det:<source>; it is discharged only by a recognised commuting loop body (entry copy into another map) or by a committed justification. A new source, or an order-sensitive body (the repaired GetMapKeys defect), fails its obligation.",
               note="Not a functional proof of byte-identity: OPA evaluation/serialisation and encoding/json are assumed deterministic (A-OPA5); the det: obligations are decided by the effect analysis (frame back end), not by SMT; justifications in spec/c06_allowed_nondeterminism.txt are trusted text.",
               tech="contract-style determinism obligations from a typed effect analysis of the real code (govc frame back end)", ref="5/C06"),
+ 'C08': dict(cat='proof', text="(1) Invariant on the deny map: every built-in named by the statement is a key of validator.unsafeBuiltinsMap, the key strings being read from the source of the linked engine on every run; nobody writes the map. (2) The only call that parses or compiles policy text in non-test code is rego.New in CompileRego, rego.UnsafeBuiltins(unsafeBuiltinsMap) is among its options and no other option is passed. (3) SMT-discharged propagation contracts with ghost flags set by the translation of PrepareForEval / Eval: when the engine rejects the module, CompileRego, ProcessProfile, CompileProfile and every Validate entry point return an error and an empty report and Eval has not been called. 55 obligations.",
+              note="Assumed (A-OPA6): a query prepared with UnsafeBuiltins(S) rejects at compile time a module calling any member of S in any syntactic position; all embedding positions end up in RegoUnit.Code (pinned by the golden files). The net.lookup_ip_addr gap found by the invariant was repaired (fix commit).",
+              tech="contract-based deductive verification: global invariant evaluated from dependency source + single-door frame obligations + SMT-discharged error-propagation contracts with ghost state", ref="5/C08"),
  'C09': dict(cat='proof', text="Equivalence: with the compiled form of a profile text and the report of (compiled profile, data, configuration) named as functions, ValidateWithConfiguration is proved (SMT, modular) to return exactly what ValidateCompiledWithConfiguration returns for ProcessProfile's result, pkg.CompileProfile to return ProcessProfile's result, and the pkg wrappers to delegate unchanged. Reuse: frame obligations show that no function reachable from the validating entry points writes package-level state or stores through the compiled-profile argument, so the report cannot depend on call history.",
               note="Assumed: OPA compilation is a function of the module text up to generated-identifier numbering and evaluation a function of its inputs (A-OPA5); Eval does not observably mutate the prepared query; rego.ResultSet data is fresh per Eval (A-OPA4).",
               tech="contract-based deductive verification (delegation postconditions over uninterpreted library functions) + frame obligations from the effect analysis", ref="5/C09"),
